@@ -11,7 +11,7 @@ EXHAUSTIVE = True
 RULE = ("EXHAUSTIVE, every run: all ordered pairs of a boundary set of 71 JSON values (0, -0.0, ±1, 2^53±1, i64::MIN/MAX, "
         "u64::MAX, 2^63, 2^64 as floats, tiny/huge/subnormal floats, numeric and non-numeric strings, booleans, null, arrays, "
         "objects) x the six operators eq ne gt gte lt lte (one template per pair prints all six); and/or over all truthiness "
-        "vectors of length 0..4; not and len on every value; the same six operators with one or both operands WRITTEN AS NUMBER LITERALS in the template (30 spellings incl. i64/u64 limits, 2^64, -0.0, exponent form) against each other and against every number of the boundary set; plus random integer/float pairs biased to near-equal "
+        "vectors of length 0..4; not and len on every value; the same in STRICT mode over a reduced set of existing operands (null, false, 0, empty ones included: strict mode changes nothing there); the same six operators with one or both operands WRITTEN AS NUMBER LITERALS in the template (30 spellings incl. i64/u64 limits, 2^64, -0.0, exponent form) against each other and against every number of the boundary set; plus random integer/float pairs biased to near-equal "
         "magnitudes; oracle = exact comparison of the mathematical values (Python int / Fraction), code-point order of "
         "strings, false<true, numeric strings through the number they denote, JSON equality; non-trivial = the pair is "
         "comparable; distinct by pair")
@@ -174,6 +174,25 @@ def generate(rng, n, tier="quick"):
         case["id"] = "%s-u%05d" % (ID, k)
         k += 1
         out.append((case, {"mode": "unary", "expect": b(not truthy(v)) + "," + str(ln), "cmp": True}))
+    # STRICT MODE changes nothing when every operand exists – a null, false, 0 or empty operand exists: pairs over a reduced
+    # set, every unary case, and null written as a literal
+    sset = [None, 0, 1, "", "a", "1", True, False, [], [1], {}, {"a": 1}, F.of(0.0), -1, 2 ** 64 - 1]
+    for x, y in itertools.product(sset, repeat=2):
+        case = session({"escape": "none", "strict": True}, [], {"api": "render_template", "src": TPL}, {"a": x, "b": y})
+        case["id"] = "%s-s%05d" % (ID, k)
+        k += 1
+        out.append((case, {"mode": "strict", "expect": expect_pair(x, y), "cmp": True}))
+    for v in vs:
+        ln = len(v) if isinstance(v, (list, dict)) else (len(v.encode("utf-8")) if isinstance(v, str) else 0)
+        case = session({"escape": "none", "strict": True}, [], {"api": "render_template", "src": "{{not a}},{{len a}},{{and a a}},{{or a a}}"}, {"a": v})
+        case["id"] = "%s-s%05d" % (ID, k)
+        k += 1
+        out.append((case, {"mode": "strict", "expect": b(not truthy(v)) + "," + str(ln) + "," + b(truthy(v)) + "," + b(truthy(v)), "cmp": True}))
+    for x in sset:
+        case = session({"escape": "none", "strict": True}, [], {"api": "render_template", "src": TPL.replace(" b}}", " null}}")}, {"a": x})
+        case["id"] = "%s-s%05d" % (ID, k)
+        k += 1
+        out.append((case, {"mode": "strict", "expect": expect_pair(x, None), "cmp": True}))
     # random near-equal integer / float pairs
     for j in range(n):
         r = rng.fork(j)
